@@ -29,7 +29,7 @@ CLAIMED = {
                 "residue i at index i*N; on the BFV, CKKS and BGV projections of extraction, field trace, division by N and "
                 "packing no step mixes coefficient-form and NTT-form data, the negacyclic shift and butterfly merge run in "
                 "coefficient form, the automorphism runs in the representation its scheme requires and results leave with "
-                "data matching their flag; the trace and packing loops advance. The negacyclic shift is applied to coefficient-form data under every flag assumption (R-REPSTATE domain). R-LWEPAIR(meta): every metadata field assemble_lwe copies from an LWE ciphertext (parms_id, scale, correction factor) is compared across all inputs of pack_lwe_ciphertexts in a refusing check.",
+                "data matching their flag; the trace and packing loops advance. The negacyclic shift is applied to coefficient-form data under every flag assumption (R-REPSTATE domain). R-LWEPAIR(meta): every metadata field assemble_lwe copies from an LWE ciphertext (parms_id, scale, correction factor) is compared across all inputs of pack_lwe_ciphertexts in a refusing check. R-LWEPAIR(shift): the butterfly's shift amount is (ring degree) >> (layer + 1), its base resolving to poly_modulus_degree and not to a count of inputs.",
         "note": _TB + "Not decided: where coefficients land as a function of the runtime index, count and trace parameter "
                 "(the stride, the factor N/2^l, the zeros), coverage of the automorphism key set, the CKKS error bound. The "
                 "butterfly merge of pack_lwe_ciphertexts works on raw-pointer views of one vector's elements, which the "
@@ -56,7 +56,7 @@ CLAIMED = {
                 "util::uintsmallmod and util::number_theory: every non-constant output depends (data or control) on "
                 "the contents of every value operand at every normal return, in/out operands are not killed before "
                 "they are read, and no out-parameter is read before it is written. An output that ignores an operand "
-                "on a path whose condition does not fix that operand cannot equal the named operation. Also: no in-place word loop reads a position an earlier iteration of the same loop has overwritten (store/load index polynomials and direction of travel), and no left shift is performed in a narrower integer type than its cast target. Every operand of add_u64_mod / sub_u64_mod / negate_u64_mod is a residue or a residue-buffer element (R-RESIDUE: provenance followed through lets, `if` values and, for parameters, every call site in the crate); a quotient, plain arithmetic or a float cast as operand is refused.",
+                "on a path whose condition does not fix that operand cannot equal the named operation. Also: no in-place word loop reads a position an earlier iteration of the same loop has overwritten (store/load index polynomials and direction of travel), and no left shift is performed in a narrower integer type than its cast target. Every operand of add_u64_mod / sub_u64_mod / negate_u64_mod is a residue or a residue-buffer element (R-RESIDUE: provenance followed through lets, `if` values and, for parameters, every call site in the crate); a quotient, plain arithmetic or a float cast as operand is refused. Sinks also include MultiplyU64ModOperand::new (operand below the modulus) and parameters that a *_mod primitive returns unchanged on some path (derived: exponentiate_u64_mod).",
         "note": _TB + "Not decided: exactness itself (Barrett estimates, carries, quotient digits) — a solver or "
                 "enumeration question, which is a different technique family. Callees are modelled by weak updates "
                 "with a short table of strong kills; loops are assumed to run at least once for the written-before-read clause.",
@@ -92,7 +92,7 @@ CLAIMED = {
                 "tier guard depends (flow-sensitively) only on inputs the guard depends on; no wrapping arithmetic on an "
                 "unbounded signed/floating input feeds a modular reduction; every entry point refuses, on every "
                 "normally-returning path, through a sign test of the scale and through branches computed from the "
-                "scale and from the value(s) against the modulus size. Also: the admissibility bit count carries the sign-bit allowance its formula needs and every float-to-integer cast fits its type under the branch guard. R-OUTCOVER: a caller-supplied plaintext that is resized (old contents kept) is completely defined by the call: indexed stores cover it densely (polynomial identities between strides, loop bounds and the resize length) or follow a zero fill; a loop bounded by the length of an input slice without a fill is refused.",
+                "scale and from the value(s) against the modulus size. Also: the admissibility bit count carries the sign-bit allowance its formula needs and every float-to-integer cast fits its type under the branch guard. R-OUTCOVER: a caller-supplied plaintext that is resized (old contents kept) is completely defined by the call: indexed stores cover it densely (polynomial identities between strides, loop bounds and the resize length) or follow a zero fill; a loop bounded by the length of an input slice without a fill is refused. R-CONTRA(wrapcast): no wrapped unsigned difference of multi-precision words is reinterpreted as a signed integer of the same width.",
         "note": _TB + "Not decided: rounding, double-precision error of the embedding transform, FFT correctness, "
                 "slot order, consistency of RNS components as values.",
         "technique": "flow-sensitive dependency comparison of guards and casts + guard dominance with scalar operands + bit-count formula / cast-width table",
@@ -105,7 +105,7 @@ CLAIMED = {
                 "precondition reaches the ladder through a refusing guard (all-pairs coprimality refusal in RNSBase::new; "
                 "refusal propagation validate <- create_ntt_tables <- NTTTables::new <- try_minimal_primitive_root <- "
                 "try_primitive_root with the up-front 2N | q-1 refusal); identifier reproducibility (compute_parms_id reads "
-                "every hashed field, writers of hashed fields recompute on every path, nothing nondeterministic reachable). Also: the words of the parms_id hash input are stored at pairwise distinct positions for every chain length. Chain construction (R-CHAIN): partially evaluating HeContext::new under each value of the parameters' boolean flag getters never folds the branch around the expansion loop to never-taken; create_next_context_data builds the one-shorter prefix (single pop of the copied moduli), refuses before linking, links both ways from the map entry of the previous id and registers the level under its own id; the expansion loop advances cursor and last id after the zero test; chain indices count down by one per level to 0.",
+                "every hashed field, writers of hashed fields recompute on every path, nothing nondeterministic reachable). Also: the words of the parms_id hash input are stored at pairwise distinct positions for every chain length. Chain construction (R-CHAIN): partially evaluating HeContext::new under each value of the parameters' boolean flag getters never folds the branch around the expansion loop to never-taken; create_next_context_data builds the one-shorter prefix (single pop of the copied moduli), refuses before linking, links both ways from the map entry of the previous id and registers the level under its own id; the expansion loop advances cursor and last id after the zero test; chain indices count down by one per level to 0. R-CONSTDEF(form): a scalar constant copied with a literal index out of a buffer that validate converts in place to RNS form is read before the conversion.",
         "note": _TB + "Not decided: that accepted parameters satisfy the mathematics as values, collision freedom of the "
                 "hash, primality of generated moduli, panic freedom of the whole constructor tree, equality of "
                 "precomputed constants with their definitions.",
@@ -144,7 +144,7 @@ CLAIMED = {
                 "of public-key encryption uses the routine of the ciphertext's representation, results leave with data "
                 "matching their flag; the stored seed is written and expanded at the same address and length; the metadata "
                 "recorded on a fresh encryption is the one the scheme implies (CKKS: the plaintext's own level and scale, "
-                "BFV/BGV: the first level; representation flag; correction factor 1) in every encrypt form. In scaling_variant / encryptor / rlwe every operand of add_u64_mod / sub_u64_mod / negate_u64_mod is a residue or a residue-buffer element (R-RESIDUE: provenance followed through lets, `if` values and, for parameters, every call site in the crate); a quotient, plain arithmetic or a float cast as operand is refused.",
+                "BFV/BGV: the first level; representation flag; correction factor 1) in every encrypt form. In scaling_variant / encryptor / rlwe every operand of add_u64_mod / sub_u64_mod / negate_u64_mod is a residue or a residue-buffer element (R-RESIDUE: provenance followed through lets, `if` values and, for parameters, every call site in the crate); a quotient, plain arithmetic or a float cast as operand is refused. MultiplyU64ModOperand::new's operand is a sink of R-RESIDUE as well (the precomputed quotient fits a word only below the modulus).",
         "note": _TB + "Not decided: that decryption returns the plaintext, any noise bound, CKKS encoding error.",
         "technique": "constant propagation of dispatch flags + scheme projection + representation typestate + symbolic metadata + address agreement",
         "design_ref": "DESIGN.md §4 C01",
@@ -159,7 +159,7 @@ CLAIMED = {
                 "applies a transform / RNS routine outside its domain, or returns lazy or wrongly flagged data; in the key-switch "
                 "back end every stage touching an RNS slot of the scratch product uses the same prime index at every "
                 "level (symbolic unification of slot and index expressions); in the add/sub back ends every transfer of the "
-                "second operand into the result is selected by the subtract flag, with different routines per mode. Also: the pairwise product tree of multiply_many stays in bounds for odd counts and keeps its intermediate products. R-TENSOR: in the ciphertext-by-ciphertext products the slice indices of every dyadic product add up to the output component and the largest index into each operand is min(i, that operand's own size - 1) (symbolic maxima over the summation loop).",
+                "second operand into the result is selected by the subtract flag, with different routines per mode. Also: the pairwise product tree of multiply_many stays in bounds for odd counts and keeps its intermediate products. R-TENSOR: in the ciphertext-by-ciphertext products the slice indices of every dyadic product add up to the output component and the largest index into each operand is min(i, that operand's own size - 1) (symbolic maxima over the summation loop). R-FAMILY(negacyclic): base-level monomial multiplications delegate to negacyclic_shift with their exponent, or rotate right by it and negate the wrapped prefix.",
         "note": _TB + "Not decided: exactness of the BEHZ steps, noise growth, the arithmetic of "
                 "balance_correction_factors, equality with the ring product.",
         "technique": "symbolic buffer dimensions at call sites + operation-class delegation + symbolic metadata + representation typestate + slot/prime index unification + mode-flag control dependence + counter-loop bound / dead-store contradiction",
@@ -182,7 +182,7 @@ CLAIMED = {
                 "apply_galois_inplace show that, on both representation arms, the key switch receives G(c1) while "
                 "poly(0) holds G(c0) and poly(1) is zero; rotate_internal applies the element whose key it tested and "
                 "composes NAF components on the same ciphertext and key set; conjugation uses step 0; the Galois "
-                "permutation's length-guarded index is implied in-bounds by its guard. Also: every stage touching an RNS slot of the key-switch scratch product uses the same prime index; no sign test is applied to a value that can only be an absolute value (rotation-step decomposition). A halving digit loop guarded by `v > 0` over a signed parameter is entered only after the value was made non-negative or negative values were refused (R-CONTRA(signloop)).",
+                "permutation's length-guarded index is implied in-bounds by its guard. Also: every stage touching an RNS slot of the key-switch scratch product uses the same prime index; no sign test is applied to a value that can only be an absolute value (rotation-step decomposition). A halving digit loop guarded by `v > 0` over a signed parameter is entered only after the value was made non-negative or negative values were refused (R-CONTRA(signloop)). R-CONTRA(onesided): an equality test on a signed NAF digit against a non-negative bound goes through the digit's absolute value.",
         "note": _TB + "Not decided: that X -> X^g permutes slots as documented, generator/NAF arithmetic, key-switch "
                 "noise, plaintext preservation under the new key.",
         "technique": "symbolic reaching-definitions over structured HIR + structural pair agreement + guard/use contradiction + slot/prime index unification + reaching-definition sign contradiction",
